@@ -47,7 +47,7 @@ func truth(r *fw.R, sps []oracle.Subpath) (box, float64) {
 	de := box{dl.X, dl.Y, dh.X, dh.Y}
 	scale := math.Max(oracle.MaxAbsCoord(sps), 1e-300)
 	// self-check of the oracle: dense samples must not stick out of the exact box
-	if e := excess(ex, de); e > 1e-12*scale {
+	if e := excess(ex, de); !(e <= 1e-12*scale) {
 		r.Count("oracle_dense_exceeds_exact", 1)
 		r.Max("oracle_dense_exceeds_exact/scale", e/scale)
 	}
@@ -118,22 +118,22 @@ func absolute(r *fw.R, sps []oracle.Subpath, label string) (b, fb box, ok bool) 
 	fb = fromRect(cv.Path(data).FastBounds())
 	t, scale := truth(r, sps)
 	ok = true
-	if e := excess(b, t); e > 1e-9*scale {
+	if e := excess(b, t); !(e <= 1e-9*scale) {
 		viol(r, sps, "bounds-misses-curve-point:"+offender(sps, b, 1e-9*scale), fmt.Sprintf("%sBounds=%v does not contain the curve: true box %v (sticks out by %.3g); path %s", label, b, t, e, oracle.Fmt(data)))
 		ok = false
 	} else {
 		r.Max("bounds_containment_excess/scale", math.Max(e, 0)/scale)
 	}
-	if e := excess(t, b); e > 1e-6*scale {
+	if e := excess(t, b); !(e <= 1e-6*scale) {
 		viol(r, sps, "bounds-not-tight:"+offender(sps, b, 1e-9*scale), fmt.Sprintf("%sBounds=%v is larger than the true box %v by %.3g (a side is not touched by the path); path %s", label, b, t, e, oracle.Fmt(data)))
 		ok = false
 	} else {
 		r.Max("bounds_slack/scale", math.Max(e, 0)/scale)
 	}
-	if e := excess(fb, t); e > 1e-9*scale {
+	if e := excess(fb, t); !(e <= 1e-9*scale) {
 		viol(r, sps, "fastbounds-misses-curve-point:"+offender(sps, fb, 1e-9*scale), fmt.Sprintf("%sFastBounds=%v does not contain the path: true box %v, Bounds=%v (sticks out by %.3g); path %s", label, fb, t, b, e, oracle.Fmt(data)))
 		ok = false
-	} else if e := excess(fb, b); e > 1e-12*scale {
+	} else if e := excess(fb, b); !(e <= 1e-12*scale) {
 		viol(r, sps, "fastbounds-not-superset-of-bounds", fmt.Sprintf("%sFastBounds=%v does not contain Bounds=%v (by %.3g); path %s", label, fb, b, e, oracle.Fmt(data)))
 		ok = false
 	}
@@ -166,7 +166,7 @@ func check(r *fw.R, sps []oracle.Subpath) {
 	}
 	k := 0
 	for _, d := range []float64{ends.x0 - t.x0, ends.y0 - t.y0, t.x1 - ends.x1, t.y1 - ends.y1} {
-		if d > 1e-9 {
+		if !(d <= 1e-9) {
 			k++
 		}
 	}
@@ -178,7 +178,7 @@ func check(r *fw.R, sps []oracle.Subpath) {
 		cls = curvefam.Class(sps[0].Segs[0])
 	}
 	r.Outcome(fmt.Sprintf("%s:sides-from-interior-extrema=%d", cls, k))
-	if excess(b, fb) > 1e-9 {
+	if !(excess(b, fb) <= 1e-9) {
 		r.Outcome("fastbounds-strictly-larger")
 	} else {
 		r.Outcome("fastbounds-equals-bounds")
@@ -199,12 +199,12 @@ func check(r *fw.R, sps []oracle.Subpath) {
 			continue
 		}
 		scale2 := math.Max(oracle.MaxAbsCoord(img), 1e-300)
-		if d := b2.maxDiff(mapBox(iso.m, b)); d > 1e-9*scale2 {
+		if d := b2.maxDiff(mapBox(iso.m, b)); !(d <= 1e-9*scale2) {
 			viol(r, sps, "bounds-not-equivariant:"+offender(sps, box{math.Inf(-1), math.Inf(-1), math.Inf(1), math.Inf(1)}, 0), fmt.Sprintf("Bounds(%s path)=%v but %s of Bounds=%v (differs by %.3g)", iso.name, b2, iso.name, mapBox(iso.m, b), d))
 		} else {
 			r.Max("bounds_equivariance_diff/scale", d/scale2)
 		}
-		if d := fb2.maxDiff(mapBox(iso.m, fb)); d > 1e-9*scale2 {
+		if d := fb2.maxDiff(mapBox(iso.m, fb)); !(d <= 1e-9*scale2) {
 			viol(r, sps, "fastbounds-not-equivariant:"+offender(sps, box{math.Inf(-1), math.Inf(-1), math.Inf(1), math.Inf(1)}, 0), fmt.Sprintf("FastBounds(%s path)=%v but %s of FastBounds=%v (differs by %.3g)", iso.name, fb2, iso.name, mapBox(iso.m, fb), d))
 		} else {
 			r.Max("fastbounds_equivariance_diff/scale", d/scale2)
